@@ -54,7 +54,8 @@ type c12Obs struct {
 	MaxDepth  int       `json:"max_depth"`
 	MaxRefs   int       `json:"max_refs"`
 	Static    bool      `json:"static_ok"`       // scparser.IsScriptCorrect(script, nil) == nil
-	Abandoned bool      `json:"abandoned_stack"` // an exception unwound a script context whose own evaluation stack was not empty (finding F57)
+	Abandoned bool      `json:"abandoned_stack"` // an exception unwound a script context whose own evaluation stack was not empty
+	F57Only   bool      `json:"f57_only"`        // the counter exceeds the walk by exactly what is on such abandoned stacks (finding F57), nothing else is wrong
 	F50Shape  bool      `json:"f50_shape"`       // a REMOVE on a Map entry whose value reaches the map itself was executed (finding F50)
 }
 
@@ -92,11 +93,16 @@ func c12Exec(co *caseOut, kind string, in c12Input) (c12Obs, bool) {
 		}
 	}
 	v := c13NewVM(in.Base, in.Limit)
+	var aband []*vm.Stack
 	check := func(where string) {
 		if bad != "" {
 			return
 		}
 		w := c12DoWalk(v)
+		wa := w // the same with the abandoned stacks as further roots: what the unrepaired counter still holds
+		if len(aband) > 0 {
+			wa = c12DoWalk(v, aband...)
+		}
 		refs := v.VerifRefs()
 		obs.EverCyc = obs.EverCyc || w.cyclic
 		obs.MaxDepth = max(obs.MaxDepth, len(v.Istack()))
@@ -104,8 +110,11 @@ func c12Exec(co *caseOut, kind string, in c12Input) (c12Obs, bool) {
 		switch {
 		case refs < w.total:
 			bad = fmt.Sprintf("%s: item counter under-counts: refs=%d but %d references are reachable", where, refs, w.total)
+		case !obs.EverCyc && refs != wa.total:
+			bad = fmt.Sprintf("%s: item counter not exact although no cycle was built: refs=%d, reachable=%d (with the stacks abandoned by exceptions: %d)", where, refs, w.total, wa.total)
 		case !obs.EverCyc && refs != w.total:
-			bad = fmt.Sprintf("%s: item counter not exact although no cycle was built: refs=%d, reachable=%d", where, refs, w.total)
+			obs.F57Only = true
+			bad = fmt.Sprintf("%s: item counter not exact although no cycle was built: refs=%d, reachable=%d; the difference is exactly what is on the evaluation stacks of scripts abandoned by an exception", where, refs, w.total)
 		case refs > vm.MaxStackSize:
 			bad = fmt.Sprintf("%s: refs=%d exceeds MaxStackSize in a running VM", where, refs)
 		case w.total > vm.MaxStackSize:
@@ -123,6 +132,7 @@ func c12Exec(co *caseOut, kind string, in c12Input) (c12Obs, bool) {
 		v.SyscallHandler = c12Loader(in.Scripts)
 	}
 	var prevStacks map[*vm.Stack]bool
+	_ = prevStacks
 	prevOp := opcode.NOP
 	v.SetOnExecHook(func(_ util.Uint160, off int, op opcode.Opcode) {
 		if multi { // did the previous instruction drop a script context by an exception while its stack still held items?
@@ -134,12 +144,13 @@ func c12Exec(co *caseOut, kind string, in c12Input) (c12Obs, bool) {
 				for st := range prevStacks {
 					if !cur[st] && st.Len() > 0 {
 						obs.Abandoned = true
+						aband = append(aband, st)
 					}
 				}
 			}
 			prevStacks, prevOp = cur, op
 		}
-		if len(obs.Refs) < c12TraceMax { // (since the repair F50 is in the tree the trace is compared through REMOVE cascades too)
+		if len(obs.Refs) < c12TraceMax && !obs.Abandoned { // (after an abandonment the unrepaired counter differs from the model's: F57) // (since the repair F50 is in the tree the trace is compared through REMOVE cascades too)
 			obs.Refs = append(obs.Refs, v.VerifRefs())
 		}
 		if obs.Static && bad == "" && off != len(script) && !bounds[off] {
@@ -815,6 +826,9 @@ func runC12(args []string) error {
 		c12Run(co, "deep", "gen", c12Input{Ops: c12HexOps(ops), Base: base, Limit: limit})
 	}
 	// several scripts loaded on top of each other, exceptions across script boundaries
+	for _, in := range c12MultiBoundary() {
+		c12Run(co, "multi", "unwind", in)
+	}
 	for i := 0; i < n/2; i++ {
 		c12Run(co, "multi", "gen", c12GenMulti(r))
 	}
